@@ -23,7 +23,7 @@ RULE = ("(lattice, enumerated completely in both tiers) input kind {python float
 ASSUMPTIONS = ["np.asarray / np.array on the same input decide dtype, shape and whether memory can be shared",
                "inheritance of the constant flag by astensor(t, dtype=other) is recorded, not judged (the statement does not settle it)"]
 BUFKINDS = ["bufarray", "memview", "obj_array", "obj_iface"]   # objects that export their buffer without being ndarrays / tensors
-KINDS = ["pyfloat", "pyint", "pybool", "list", "nested", "arrC", "arrF", "arrview", "arrRO", "arr32", "arrint", "bufarray", "memview", "obj_array", "obj_iface", "t_leaf", "t_const", "t_int",
+KINDS = ["pyfloat", "pyint", "pybool", "list", "nested", "arrC", "arrF", "arrview", "arrRO", "arr32", "arrint", "arrBE", "bufarray", "memview", "obj_array", "obj_iface", "t_leaf", "t_const", "t_int", "t_BE",
          "t_graph", "t_grad", "t_view"]
 DTYPES = [None, "same", "float32", "float64", "int64", "bool", "complex64", "object", "str", "datetime64[s]"]
 CONSTS = [None, True, False]
@@ -110,6 +110,10 @@ def make_input(kind):
         return base.astype(np.float32)
     if kind == "arrint":
         return np.arange(6).reshape(2, 3)
+    if kind == "arrBE":
+        return base.astype(">f8")            # non-native byte order
+    if kind == "t_BE":
+        return mg.tensor(base.astype(">f8"))
     if kind == "bufarray":
         import array
         return array.array("d", [1.0, 2.0, 3.0])
@@ -180,7 +184,10 @@ def run_cell(cell, cnt, viol):
     dt = resolve_dtype(d, x)
     kw = {}
     if dt is not None:
-        kw["dtype"] = dt
+        # the same dtype, spelled as a dtype object, as the NumPy scalar class, or by name (chosen by the cell, deterministically)
+        rep = (len(kind) + len(str(d)) + len(fn) + (0 if ndmin == "x" else int(ndmin))) % 3
+        plain = dt.kind in "fiub" and dt.isnative and np.dtype(dt.type) == dt and np.dtype(dt.name) == dt
+        kw["dtype"] = dt if (rep == 0 or not plain) else (dt.type if rep == 1 else dt.name)
     if fn != "asarray":
         if const is not None:
             kw["constant"] = const
